@@ -539,14 +539,17 @@ type c03Slice struct {
 // c03Slices: quick = every program with <= 5 nodes, plus the 6-node programs
 // over one variable and the reduced alphabet that contain a break/continue
 // (the smallest programs in which a jump follows an invalidation in one
-// branch have 6 nodes). thorough = every program with <= 6 nodes (the cheap
-// one-variable slice first, so that a deadline cuts the least informative part).
+// branch have 6 nodes). thorough = every program with <= 5 nodes plus every
+// 6-node program over the reduced alphabet (destroy and array move as the
+// invalidations, while as the loop; 23 M programs; the full alphabet at 6
+// nodes would be 64 M), the cheap one-variable slice first so that a
+// deadline cuts the least informative part.
 func c03Slices(thorough bool) []c03Slice {
 	if thorough {
 		return []c03Slice{
 			{"all<=5", proggen.LinOpts{MaxNodes: 5}},
 			{"6-nodes/1var/reduced", proggen.LinOpts{MaxNodes: 6, MinNodes: 6, Reduced: true, OneVar: true, NoOptional: true}},
-			{"all=6", proggen.LinOpts{MaxNodes: 6, MinNodes: 6}},
+			{"6-nodes/reduced", proggen.LinOpts{MaxNodes: 6, MinNodes: 6, Reduced: true}},
 		}
 	}
 	return []c03Slice{
@@ -567,7 +570,7 @@ D0;loop{if{I0;return;}else{continue;}}I0; D0;loop{if{I0;return;}if{break;}}I0;  
 D0;loop{if{M1<0;I1;return;}}U0;I0;     loop{D0;if{I0;continue;}else{I0;break;}}  loop{D0;if{I0;continue;}else{I0;}}
 D0;loop{if{break;}}I0;                 D0;loop{if{I0;panic;}if{break;}}I0;       D0;loop{if{if{break;}I0;return;}}I0;
 loop{D0;if{I0;break;}I0;}              loop{D0;loop{if{I0;return;}}if{I0;continue;}I0;}  D0;loop{D1;if{I1;I0;return;}I1;}I0;
-D0;loop{D1;if{I1;continue;}A1;}I0;     D0;loop{I0;loop{}}panic;                  D0;D1;loop{if{I0;return;}I1;D1;}I0;I1;
+D0;loop{D1;if{I1;continue;}A1;}I0;     D0;loop{I0;loop{}}panic;                  D0;D1;loop{if{I0;return;}U1;}I0;I1;
 fun0{loop{if{I0;return;}}I0;}D0;for{D1;I1;}I0;   O0;for{iflet1<0{I1;return;}else{return;}}I0;
 `)
 
@@ -577,6 +580,16 @@ func runC03(env *mc.Env) {
 	slices := c03Slices(env.Thorough())
 	const batch = 2048
 	slices = append(slices, c03Slice{name: "seeds"})
+	if env.Sub != "" { // debugging aid: run only the slices whose name contains --sub
+		var sel []c03Slice
+		for _, sl := range slices {
+			if strings.Contains(sl.name, env.Sub) {
+				sel = append(sel, sl)
+			}
+		}
+		slices = sel
+		env.R.NotExhaustive("slice selection --sub " + env.Sub)
+	}
 	for _, sl := range slices {
 		ch := make(chan [][]proggen.LinTok, 2*env.Workers)
 		var generated int64
@@ -691,7 +704,7 @@ func replayC03(env *mc.Env, raw json.RawMessage) (bool, string) {
 func init() {
 	mc.Register(&mc.Check{
 		ID: "C03",
-		Rule: "every statement tree of <= 5 (quick) / 6 (thorough) nodes over <= 2 resource variables from the linear fragment " +
+		Rule: "every statement tree of <= 5 nodes (quick: plus the 6-node one-variable programs containing a jump; thorough: plus every 6-node program over the reduced alphabet; both: plus 26 hand-written deeper seeds) over <= 2 resource variables from the linear fragment " +
 			"(create, move to variable/argument/array/optional, destroy, use, swap, if, if-else, while, for, break, continue, return, panic, if-let, nested function; no dead code) " +
 			"is parsed and checked by the real checker and judged by an independent path-enumerating linearity analysis; " +
 			"required: a linearity error is reported iff some path loses, double-moves or uses-after-move a resource; non-trivial = distinct control skeleton of a linear program that the checker accepted",
